@@ -233,9 +233,10 @@ def walk_rule(chk):
     src = q
     loops = [n for n in q.body if isinstance(n, ast.For)]
     ok_loop = len(loops) == 1 and U(loops[0].iter) == f"{model}.named_modules()" and isinstance(loops[0].target, ast.Tuple) and len(loops[0].target.elts) == 2
-    chk.require("C08.R5", f"{mi.rel}:{q.lineno}", ok_loop, "quantize iterates model.named_modules()", "quantize", "walk over named_modules", "nested modules are not visited")
     if not ok_loop:
+        recursive_walk(chk, mi, q)
         return
+    chk.ok("C08.R5", f"{mi.rel}:{q.lineno}", "quantize iterates model.named_modules()")
     name, m = [U(x) for x in loops[0].target.elts]
     body = loops[0].body
     # filter
@@ -280,6 +281,48 @@ def walk_rule(chk):
     src = U(qmf)
     ok = "for cls in _QMODULE_TABLE:" in src and "if isinstance(module, cls):" in src and "qcls, qparams = _QMODULE_TABLE[cls]" in src and "if name in kwargs:" in src and "module_kwargs[name] = kwargs[name]" in src and "return qcls.from_module(module, **module_kwargs)" in src
     chk.require("C08.R5", f"{mi3.rel}:{qmf.lineno}", ok, "quantize_module: first registered class the module is an instance of; accepted kwargs forwarded by name to from_module", "quantize_module", "quantize_module shape", "a registered module class is not quantized or loses its configuration")
+
+
+def recursive_walk(chk, mi, q):
+    """A walk written as a recursion over named_children(): every child that is not replaced must be descended into,
+    whatever the filter says about the child itself (the filter selects modules, not subtrees)."""
+    from ..core import PathEnum, path_feasible
+    repo = chk.repo
+    site = f"{mi.rel}:{q.lineno}"
+    cands = []
+    for fn in mi.tree.body:
+        if isinstance(fn, ast.FunctionDef):
+            for loop in [n for n in fn.body if isinstance(n, ast.For)]:
+                if isinstance(loop.iter, ast.Call) and isinstance(loop.iter.func, ast.Attribute) and loop.iter.func.attr == "named_children" and isinstance(loop.target, ast.Tuple) and len(loop.target.elts) == 2:
+                    if any(isinstance(c, ast.Call) and U(c.func) == fn.name for c in ast.walk(loop)):
+                        cands.append((fn, loop))
+    if len(cands) != 1:
+        chk.unknown("C08.R5", site, "quantize: module walk is neither a loop over named_modules() nor a recognised recursion over named_children()")
+        return
+    fn, loop = cands[0]
+    reached = any(isinstance(c, ast.Call) and U(c.func) == fn.name for c in ast.walk(q))
+    if not reached:
+        chk.unknown("C08.R5", site, f"quantize does not call the recursive walker {fn.name}")
+        return
+    child, m = [U(x) for x in loop.target.elts]
+    parent = U(loop.iter.func.value)
+    body_fn = ast.FunctionDef(name="__body__", args=fn.args, body=loop.body, decorator_list=[], lineno=loop.lineno)
+    paths = [p for p in PathEnum(body_fn).run() if path_feasible(p)]
+    n = 0
+    for p in paths:
+        n += 1
+        f = path_facts(p)
+        recursed = any(ef[0] == "expr" and isinstance(ef[1], ast.Call) and U(ef[1].func) == fn.name and ef[1].args and U(ef[1].args[0]) == m for ef in p.effects)
+        replaced = any(ef[0] == "expr" and isinstance(ef[1], ast.Call) and U(ef[1].func) == "setattr" and [U(a) for a in ef[1].args[:2]] == [parent, child] for ef in p.effects)
+        conds = " & ".join(p.cond_texts()) or "unconditional"
+        psite = f"{mi.rel}:{getattr(p, 'end', (0, 0, loop.lineno))[2] if p.end else loop.lineno}"
+        if recursed or replaced:
+            chk.ok("C08.R5", psite, f"{fn.name}: child path [{conds[:90]}] {'descends into' if recursed else 'replaces'} the child")
+        else:
+            filt = any("not in" in t and "modules" in t for t in p.cond_texts())
+            chk.bad("C08.R5", psite, fn.name, "child neither replaced nor descended" + (" (filtered)" if filt else ""), f"{fn.name}: on the path [{conds[:120]}] the child is neither replaced nor descended into: its whole subtree is skipped",
+                    "quantize(model, modules=[a nested Linear]) where the parent container is not itself in the filter: the selected module silently stays float" if filt else "a nested container: its quantizable children are never visited")
+    chk.floor("C08.R5", n, 2, "recursive walk child paths")
 
 
 def forward_rule(chk, qm):
